@@ -158,7 +158,7 @@ def rule_sel_pair(ctx):
     senv = H.sym_env(fn)
     types = []
     uses = []
-    for n in fn.walk(lambda x: x['k'] == 'struct'):
+    for n in fn.walk(lambda x: x['k'] == 'struct' and all('e' in y for y in x.get('fields', []))):
         adt = n.get('adt', '')
         f = {x['name']: x['e'] for x in n['fields']}
         if adt.endswith('ExpandedType'):
